@@ -89,6 +89,7 @@ def unary_menu(p, n):
         {'op': 'slice', 's': {'kind': 'range', 'start': 0, 'stop': 0, 'step': None}, 'p': p},
         {'op': 'slice', 's': {'kind': 'idx', 'is': [-1, 0, 0], 'form': 'list'}, 'p': p},
         {'op': 'slice', 's': {'kind': 'keys', 'ks': ['a'], 'form': 'list'}, 'p': p},
+        {'op': 'slice', 's': {'kind': 'idx', 'is': ([n - 1, 0, 0] if n else []), 'form': 'ndarray'}, 'p': p},
         {'op': 'concat', 'ps': [p, {'op': 'dict', 'kvs': [['x', 8], ['y', 9]]}], 'style': 'method'},
         {'op': 'concat', 'ps': [p, copy.deepcopy(p)], 'style': 'function'},
         {'op': 'intersperse', 'ps': [p, {'op': 'dict', 'kvs': [['x', 8], ['y', 9]]}], 'style': 'method'},
